@@ -26,5 +26,6 @@ func moreGens() []struct {
 		{"ChildrenOrder.v", genChildrenOrder}, // C15
 		{"FaultWrap.v", genFaultWrap},         // C16
 		{"PkgVars.v", genPkgVars},             // C14
+		{"EvalShape.v", genEvalShape},         // C02, C13
 	}
 }
